@@ -5,8 +5,9 @@ UNITS = [
 ]
 HARNESSES = [
     Harness('block1', 'h_alloc_w1', unwind=34, bounds='1 block, 64 granules', mem_gb=6, timeout=900),
-    Harness('block1', 'h_release_w1', unwind=34, bounds='1 block, 64 granules', mem_gb=6, timeout=900),
+    Harness('block1', 'h_release_w1', unwind=5, bounds='1 block, 64 granules', mem_gb=6, timeout=900),
 ]
+HARNESSES += [Harness('block1','h_release_imm_w1',unwind=5), Harness('block1','h_release_w2',unwind=5)]
 EXPLANATION = 'x'
 OUTSIDE = []
 ASSUMPTIONS = []
